@@ -6,7 +6,7 @@
 
    Paths given to the kernel are (absolute?, component list); physical locations are
    lists of names from the model root (= the harness's chroot root). *)
-From Oras Require Import Base.Prelude.
+From Oras Require Import Base.Prelude Generated.GC11.
 Open Scope nat_scope.
 
 Definition name := str.
@@ -437,7 +437,7 @@ Definition extract_entry_core (g : cfg) (pres : bool) (cwd : path) (dp : list na
       | Some f0 => chmod_if pres (write_at f0 (Nms fp) c m) fp m
       end
     | EDir _ m =>   (* created writable for the owner; the recorded mode is applied after the last entry *)
-      if fixN g then mkdir_real f dp rel (N.lor m 448) else mkdir_all f (Nms fp) (N.lor m 448)
+      if fixN g then mkdir_real f dp rel (N.lor m c11_unpack_dir_or) else mkdir_all f (Nms fp) (N.lor m c11_unpack_dir_or)
     | EHard _ tgt =>
       if self then None else
       match ensure_link f dp fp tgt with
@@ -539,11 +539,11 @@ Record store := mkStore { st_fs : fsys; st_names : list str; st_d2p : list (N * 
 Definition ensure_write_dir (g : cfg) (wd : path) (f : fsys) (dir : list name) (rawdir : list comp) : option fsys :=
   match (if fixN g then strip_prefix wd dir else None) with
   | Some rel =>   (* ensureDirNoSymlink: os.MkdirAll(base), then element by element *)
-    match mkdir_all f (Nms wd) 511 with
-    | Some f0 => mkdir_real f0 wd rel 511
+    match mkdir_all f (Nms wd) c11_write_dir_perm with
+    | Some f0 => mkdir_real f0 wd rel c11_write_dir_perm
     | None => None
     end
-  | None => mkdir_all f rawdir 511
+  | None => mkdir_all f rawdir c11_ensure_dir_perm
   end.
 
 (* Store.push of a named blob: [w] is the content written, [good] whether it verifies against
